@@ -39,6 +39,7 @@ type Profile struct {
 	PTopSlice  int  // % of top-level schemas that are slices
 	PTopPT     int  // % of top-level structs with PostTransforms even when PPT is 0 (their gate is deterministic)
 	PValid     int  // % of primitive leaves given a value their own schema accepts
+	NilBias    bool // whole inputs are re-drawn (up to 10 times) until the implementation reports no issues
 	Repeats    int  // how many times a case is re-run (with reshuffled schema insertion orders and varying pool states)
 }
 
@@ -414,11 +415,24 @@ func ProfileByName(name string) Profile {
 		// mostly valid inputs: a single swallowed issue then yields a nil result over a violated constraint
 		p.PValid = 85
 		p.PAbsent = 8
+		p.PDefault = 30
 		p.PTests = 55
 		p.PUserTest = 15
 		p.PPtr = 25
 		p.PPT = 5
 		p.PCatch = 30
+	case "C01d":
+		// values the schema itself places (Default, Catch) at every depth, everything else valid
+		p.PValid = 90
+		p.PAbsent = 30
+		p.PDefault = 60
+		p.PSlice = 35
+		p.PTests = 80
+		p.PUserTest = 15
+		p.PPT = 0
+		p.PCatch = 15
+		p.MaxFields = 2
+		p.NilBias = true
 	case "C02":
 		p.PInvalid = 45
 		p.PTests = 75
